@@ -97,6 +97,11 @@ CHECKS = {
             "Exhaustive over the integer domains and the abstracted composite domains; random trees sampled; configuration features std + serde + serde_repr.",
             "Generic deserializer = serde_json::Value and JSON text (self-describing); typed visits only through serde's primitive value deserializers.",
             "DESIGN.md 4/C19"),
+    "C18": (True,
+            "generated-input search under an allocation-counting global allocator and a panic monitor: the (reduced; thorough: full quick) exhaustive domains, BFS fixpoints and proptest histories of C01-C17 are re-run in a build with opt-level 0, overflow checks and debug assertions, in two configurations (mock clock; guard off with the real std::time::Instant), plus formatting sweeps of the integer and error types into a stack buffer; oracle: allocation count inside crate calls == 0 and no panic outside calls made expecting one",
+            "Established for the executed paths only; the workloads cover every match arm of every scanner (class histograms in the evidence).",
+            "Generic crate functions are monomorphised in the harness crate, so the harness is built at opt-level 0 too; allocations by serde deserialization are out of scope.",
+            "DESIGN.md 4/C18"),
 }
 
 ALL = ["C%02d" % i for i in range(1, 20)]
